@@ -1,8 +1,8 @@
 #!/usr/bin/env python3
-"""Self-test of the round-7 translators (`containers` -> C12Gen, `reasoningN` -> C02Gen, `wiring` -> C13Gen, `ringslots` -> C05Gen, `executor` -> C06Gen, `spinwait` -> C13WaitGen, `spseq` -> C14Gen, `mpseq` -> C14MGen) on edited *copies* of the
+"""Self-test of the round-7 translators (`containers` -> C12Gen, `reasoningN` -> C02Gen, `wiring` -> C13Gen, `ringslots` -> C05Gen, `executor` -> C06Gen, `spinwait` -> C13WaitGen, `spseq` -> C14Gen, `mpseq` -> C14MGen, `consumer` -> C04Gen) on edited *copies* of the
 sources — never touches /repo or /verif/lean:
 
-    python3 tools/test_rs2lean_round7.py [--repo /repo] [--only containers|reasoningN|wiring|ringslots|executor|spinwait|spseq|mpseq]
+    python3 tools/test_rs2lean_round7.py [--repo /repo] [--only containers|reasoningN|wiring|ringslots|executor|spinwait|spseq|mpseq|consumer]
 
 A scratch copy of the source tree (git worktree-free: the files are copied) and of the Lean project (with its build output, so that
 only the touched modules are rebuilt) is made under a temporary directory; for every edit the translator is run on the copy and the
@@ -29,6 +29,7 @@ CSQ = 'dcl_data_structures/src/ring_buffer/utils/cursor_sequence.rs'
 BLK = 'dcl_data_structures/src/ring_buffer/wait_strategy/blocking_wait_strategy.rs'
 SPS = 'dcl_data_structures/src/ring_buffer/producer/single_producer.rs'
 MPS = 'dcl_data_structures/src/ring_buffer/producer/multi_producer.rs'
+BEP = 'dcl_data_structures/src/ring_buffer/consumer/batch_event_processor.rs'
 PUSH_LOOP = "        let mut all: Vec<&T> = Vec::new();\n        for item in self {\n            all.push(&item)\n        }\n        all\n"
 DEQ_TOVEC = ("        let mut v = Vec::with_capacity(self.len());\n        let mut deque = self.clone(); // clone to avoid mutating the original\n\n"
              "        for item in deque.make_contiguous().iter() {\n            v.push(item.clone());\n        }\n\n        v\n")
@@ -172,6 +173,14 @@ EDITS = {
         ('BREAK', 'low watermark set to hi', MPS, "self.low_watermark.set(good_to_release);", "self.low_watermark.set(hi);"),
         ('BREAK', 'scan probes the current sequence', MPS, "is_set(good_to_release + 1)", "is_set(good_to_release)"),
         ('BREAK', 'drain waits on the high watermark (refused)', MPS, "        let current = self.cursor.get();\n        while get_min_cursor_sequence", "        let current = self.high_watermark.get();\n        while get_min_cursor_sequence"),
+    ]),
+    'consumer': ('DcVerif.Props.C04Gen', [
+        ('BREAK', 'one twin signals before it stores its cursor (refused)', BEP,
+         "                let value = unsafe { data_provider.get(i) };\n                f.handle_event(value, i, i == available);\n            }\n\n            cursor.set(available);\n            barrier.signal();",
+         "                let value = unsafe { data_provider.get(i) };\n                f.handle_event(value, i, i == available);\n            }\n\n            barrier.signal();\n            cursor.set(available);"),
+        ('BREAK', 'one twin starts its batch one late (twins differ: refused)', BEP,
+         "            for i in next..=available {\n                let value = unsafe { data_provider.get_mut(i) };",
+         "            for i in next + 1..=available {\n                let value = unsafe { data_provider.get_mut(i) };"),
     ]),
 }
 
